@@ -541,23 +541,13 @@ func checkNoDrop(e *Env, m *e1Model, ts *ssa.Function) {
 		names, conds := false, false
 		other := 0
 		for _, cd := range flow.DomConds(ret.Block()) {
-			bo, ok := cd.V.(*ssa.BinOp)
+			arg, pr, ok := flow.LenPred(cd.V, cd.Pol)
 			if !ok {
 				other++
 				continue
 			}
-			lc, ok := bo.X.(*ssa.Call)
-			k, isK := flow.ConstInt(bo.Y)
-			if !ok || !isK || k != 0 {
-				other++
-				continue
-			}
-			if bi, ok := lc.Call.Value.(*ssa.Builtin); !ok || bi.Name() != "len" {
-				other++
-				continue
-			}
-			zero := (bo.Op == token.EQL && cd.Pol) || (bo.Op == token.NEQ && !cd.Pol) || (bo.Op == token.GTR && !cd.Pol)
-			o := res.Of(lc.Call.Args[0], nil, lc)
+			zero := pr.OnlyZero()
+			o := res.Of(arg, nil, nil)
 			switch {
 			case zero && o.Kind == origin.KField && o.Field.Name() == "Names":
 				names = true
@@ -925,7 +915,7 @@ func runC02(e *Env) {
 	p := m.p
 	name := "x86_64=true,short=true"
 	c := newWctx(e, m, name)
-	swc := m.condEmitter()
+	var swc *ssa.Function
 	// iteration starts by (op, last, world)
 	type tkey struct {
 		op    string
@@ -1012,7 +1002,9 @@ func runC02(e *Env) {
 	r.Floor("E1.template(rows)", nRows, 248)
 	r.Extra("exhaustive_class_split", "6 ordering operations x 9 classes + 2 bit operations x 4 classes = 62 rows per (last, world) combination")
 	// accumulator typing inside templates
-	nAcc := c.checkAcc("E1.acc", func(cl instClass) bool { return strings.HasPrefix(cl.Operand, "hi:") || strings.HasPrefix(cl.Operand, "lo:") })
+	nAcc := c.checkAcc("E1.acc", func(cl instClass) bool {
+		return strings.HasPrefix(cl.Operand, "hi:") || strings.HasPrefix(cl.Operand, "lo:")
+	})
 	r.Floor("E1.acc(word comparisons)", nAcc, 64)
 	checkWordOffsets(e, m)
 	checkEndianDetect(e, m)
@@ -1116,18 +1108,17 @@ func (c *wctx) runTemplate(start *emit.WNode, swc *ssa.Function, hi, lo int, bit
 				outcomes["jump-without-label"] = true
 				return
 			}
-			if lab.Fn() == swc {
-				switch lab.Depth() {
-				case 2:
-					outcomes["match"] = true
-				case 1:
-					outcomes["noMatch"] = true
-				default:
-					outcomes["jumps-to-the-entry-exit-label"] = true
-				}
+			switch labelRole(lab) {
+			case "next-cond":
+				outcomes["match"] = true
 				return
-			}
-			if lab.Fn() != nil && lab.Fn().Name() != "JmpIfTrue" {
+			case "list-failed":
+				outcomes["noMatch"] = true
+				return
+			case "entry-exit", "other":
+				outcomes["jumps-to-the-entry-exit-label"] = true
+				return
+			case "group":
 				outcomes["match"] = true // the action label, through the match phi of the last condition
 				return
 			}
